@@ -131,6 +131,12 @@ def genOps2 : List (String × R String) := [
   ("g:target", do
       let bits ← nat
       pure (ansG (fun (b : Bytes) => if b.length ≥ 32 then toString (Py.ofBE b) else "bad-width") (Gen.blockheader_target (bits : Int)))),
+  ("g:blk_parse", do
+      let b ← bytes
+      pure (ansG (fun (k : Py.PyBlock) =>
+        let h := k.header
+        s!"{hex k.magic} {k.block_size} {h.version} {hex h.previous_block_hash} {hex h.merkle_root} {h.timestamp} {h.target_bits} {h.nonce} {k.transaction_count} " ++
+        showList (fun t => hex (Crypto.sha256 (showTx (backTx t)).toUTF8.toList)) k.transactions) (Gen.block_from_raw Gen.CODE_OPS b))),
   ("g:hdr_parse", do
       let b ← bytes
       pure (ansG (fun (h : Py.PyHeader) => s!"{h.version} {hex h.previous_block_hash} {hex h.merkle_root} {h.timestamp} {h.target_bits} {h.nonce}")
